@@ -236,9 +236,27 @@ func modelWith(x *openfgav1.Userset, restr []*openfgav1.RelationReference, withC
 			"p": {TypeName: openfgav1.ConditionParamTypeRef_TYPE_NAME_INT},
 			"q": {TypeName: openfgav1.ConditionParamTypeRef_TYPE_NAME_STRING},
 			"l": {TypeName: openfgav1.ConditionParamTypeRef_TYPE_NAME_LIST, GenericTypes: []*openfgav1.ConditionParamTypeRef{{TypeName: openfgav1.ConditionParamTypeRef_TYPE_NAME_STRING}}},
-		}}}
+		}},
+			// every parameter type the lexer knows: scalar, list<T> and map<T> for each T
+			"alltypes": {Name: "alltypes", Expression: "s_int < 10", Parameters: allParamTypes()}}
 	}
 	return m
+}
+
+func allParamTypes() map[string]*openfgav1.ConditionParamTypeRef {
+	scalars := map[string]openfgav1.ConditionParamTypeRef_TypeName{
+		"bool": openfgav1.ConditionParamTypeRef_TYPE_NAME_BOOL, "string": openfgav1.ConditionParamTypeRef_TYPE_NAME_STRING,
+		"int": openfgav1.ConditionParamTypeRef_TYPE_NAME_INT, "uint": openfgav1.ConditionParamTypeRef_TYPE_NAME_UINT,
+		"double": openfgav1.ConditionParamTypeRef_TYPE_NAME_DOUBLE, "duration": openfgav1.ConditionParamTypeRef_TYPE_NAME_DURATION,
+		"timestamp": openfgav1.ConditionParamTypeRef_TYPE_NAME_TIMESTAMP, "ipaddress": openfgav1.ConditionParamTypeRef_TYPE_NAME_IPADDRESS,
+	}
+	out := map[string]*openfgav1.ConditionParamTypeRef{}
+	for name, tn := range scalars {
+		out["s_"+name] = &openfgav1.ConditionParamTypeRef{TypeName: tn}
+		out["l_"+name] = &openfgav1.ConditionParamTypeRef{TypeName: openfgav1.ConditionParamTypeRef_TYPE_NAME_LIST, GenericTypes: []*openfgav1.ConditionParamTypeRef{{TypeName: tn}}}
+		out["m_"+name] = &openfgav1.ConditionParamTypeRef{TypeName: openfgav1.ConditionParamTypeRef_TYPE_NAME_MAP, GenericTypes: []*openfgav1.ConditionParamTypeRef{{TypeName: tn}}}
+	}
+	return out
 }
 
 // ---------- executable specification (from the statements of C01/C02) ----------
